@@ -41,7 +41,7 @@ type knShadow struct {
 
 type knPair struct{ v int }
 
-func (p knPair) MarshalJSON() ([]byte, error) { return json.Marshal(p.v) }
+func (p knPair) MarshalJSON() ([]byte, error)  { return json.Marshal(p.v) }
 func (p *knPair) UnmarshalJSON(b []byte) error { return json.Unmarshal(b, &p.v) }
 
 type knPromoted struct {
